@@ -124,6 +124,7 @@ class ProgramError(Exception):
 # Both sides of the comparison run "in an environment where imported names are inert stand-ins" (the property's words): every
 # global, whatever its module, is a stand-in class whose instances record how they were made and what was applied to them.
 _STANDINS: Dict[Tuple[str, str], type] = {}
+CALL_LOG: List[tuple] = []  # every stand-in call, in order (the effects a pickle has, when everything it names is inert)
 
 
 class _StandIn:
@@ -132,6 +133,7 @@ class _StandIn:
     def __new__(cls, *a, **k):
         o = object.__new__(cls)
         o._log = [("call", a, tuple(sorted(k.items(), key=lambda kv: kv[0])))]
+        CALL_LOG.append((cls._key, a, tuple(sorted(k.items(), key=lambda kv: kv[0]))))
         return o
 
     def __init__(self, *a, **k):
@@ -181,6 +183,16 @@ def standin(module: str, name: str) -> type:
 
 class _StandInUnpickler(pickle.Unpickler):
     """CPython's own unpickler with every global replaced by its stand-in (find_class is the documented hook)."""
+
+    def find_class(self, module, name):
+        return standin(module, name)
+
+    def persistent_load(self, pid):
+        return standin("UNPICKLER", "persistent_load")(pid)
+
+
+class _StandInUnpicklerPy(pickle._Unpickler):
+    """The pure-Python unpickler (Lib/pickle.py), same stand-ins."""
 
     def find_class(self, module, name):
         return standin(module, name)
